@@ -11,6 +11,7 @@ CONSTANTS
   MapRemoveDropsFirst = TRUE
   BugAppend = FALSE
   BugRemGuard = FALSE
+  BugOORDoubleRelease = FALSE
 INVARIANTS TypeOK WalkedOK AbsCount RcExact RcSane
 PROPERTIES AbsStep
 VIEW View
